@@ -2,12 +2,14 @@ module verifharness
 
 go 1.26
 
-require github.com/named-data/ndnd v0.0.0
+require (
+	github.com/gorilla/websocket v1.5.3
+	github.com/named-data/ndnd v0.0.0
+)
 
 require (
 	github.com/cespare/xxhash v1.1.0 // indirect
 	github.com/davecgh/go-spew v1.1.1 // indirect
-	github.com/gorilla/websocket v1.5.3 // indirect
 	github.com/pkg/errors v0.9.1 // indirect
 	github.com/pmezard/go-difflib v1.0.0 // indirect
 	github.com/stretchr/testify v1.10.0 // indirect
